@@ -43,14 +43,14 @@ var (
 
 // sreq is one signing request, optionally preceded by a reload and/or executed under a failing state write.
 type sreq struct {
-	Kind   int  `json:"kind"`   // 0 proposal(step1) 1 prevote(step2) 2 precommit(step3)
-	H      int  `json:"h"`      // 1,2
-	R      int  `json:"r"`      // 0,1
-	B      int  `json:"b"`      // 0 = block A, 1 = block B, 2 = nil (votes only)
-	T      int  `json:"t"`      // timestamp index
+	Kind   int  `json:"kind"`        // 0 proposal(step1) 1 prevote(step2) 2 precommit(step3)
+	H      int  `json:"h"`           // 1,2
+	R      int  `json:"r"`           // 0,1
+	B      int  `json:"b"`           // 0 = block A, 1 = block B, 2 = nil (votes only)
+	T      int  `json:"t"`           // timestamp index
 	C      int  `json:"c,omitempty"` // 0 = the validator's chain, 1 = a request carrying ANOTHER chain id
-	Reload bool `json:"reload"` // reload the signer from its files before the request
-	Fail   bool `json:"fail"`   // the state directory is missing during the request (an atomic write fails); the process restarts iff the signer panicked
+	Reload bool `json:"reload"`      // reload the signer from its files before the request
+	Fail   bool `json:"fail"`        // the state directory is missing during the request (an atomic write fails); the process restarts iff the signer panicked
 }
 
 func (q sreq) String() string {
